@@ -41,6 +41,7 @@ var (
 	errOverflow          = errors.New("overflow")
 	errNotEnoughData     = errors.New("not enough data")
 	errNaN               = errors.New("invalid value NaN")
+	errInvalidSampleRate = errors.New("invalid sample rate")
 )
 
 var escapedNewline = []byte("\\n")
@@ -99,6 +100,9 @@ func (l *Lexer) Run(input []byte, namespace string) (*gostatsd.Metric, *gostatsd
 		return nil, nil, l.err
 	}
 	if l.m != nil {
+		if !(l.sampling > 0) || math.IsInf(l.sampling, 1) {
+			return nil, nil, errInvalidSampleRate
+		}
 		l.m.Rate = l.sampling
 		if l.m.Type != gostatsd.SET {
 			v, err := strconv.ParseFloat(l.m.StringValue, 64)
